@@ -29,11 +29,18 @@ def run(chk):
         if m:
             found = True
             key = m.split(" at ")[0].split(" gaps")[0]
+            sig = {"monitor": key, "variant": c["variant"]}
+            site = "internal/handshake fsm.go handleRetransmitTimeout / fsm12.go wait,finish"
+            if m.startswith(c02lib.REPEATED):
+                # one defect whatever the variant: the fragment buffer flags a retransmission by message number only
+                key, sig = c02lib.REPEATED, {"monitor": c02lib.REPEATED, "version": 12}
+                site = "internal/fragmentbuffer pushHandshakeFragments (isRetransmit only for message_seq < current) / internal/handshake fsm12.go wait (interval reset)"
+            elif m.startswith(c02lib.RESENT):
+                key, sig = c02lib.RESENT, {"monitor": c02lib.RESENT, "version": 12}
             if key in reported:
                 continue
             reported.add(key)
-            chk.finding("internal/handshake fsm.go handleRetransmitTimeout / fsm12.go wait,finish",
-                        {"monitor": key, "variant": c["variant"]},
+            chk.finding(site, sig,
                         "%s [variant %s interval %d ms backoff %s]" % (m, c["variant"], c["interval_ms"], not c["no_backoff"]),
                         {"case": c02lib.slim(c)})
     if proved:
